@@ -158,7 +158,7 @@ def r07_2(ctx):
                 ok = x.endswith(",true)") and i > 0 and t[i - 1] == "self.writer.write_all([61, 34])"
                 nxt = t[i + 1] if i + 1 < len(t) else ""
                 # the closing quote follows unless the write failed (path returns the error)
-                ok = ok and (nxt == "self.writer.write_all([34])" or nxt == "")
+                ok = ok and (nxt == "self.writer.write_all([34])" or nxt == "" or (nxt == "loop-end(break)" and t[-1] == nxt))
                 if not ok:
                     ctx.ob("R07.2", "attr-value-escaped-between-quotes", False, "attribute value written as %s after %s" % (x, t[i - 1] if i else None))
                     return
@@ -202,17 +202,14 @@ def r07_3(ctx, raw):
     want = ctxmap - rcdata
     ctx.ob("R07.3", "raw-text-set == parser's", raw == want, "serializer leaves %s unescaped; tokenizer_state_for_context_elem switches to a raw state for %s (RCDATA elements %s are escaped, as required)" % (sorted(raw), sorted(want), sorted(rcdata & ctxmap)))
     # void elements: serializer's ignore_children list = tree builder's NoPush+AckSelfClosing HTML arms
-    it = _fn(ctx, "start_elem")
     void = set()
-
-    def f(n):
-        if n.get("k") == "Match" and show(n["e"]).endswith("name.local"):
-            for a in n["arms"]:
-                for at in _atoms(a["pat"]):
-                    if a["body"].get("k") == "Lit" and a["body"]["v"] is True:
-                        void.add(at)
-
-    walk(it["body"], f)
+    key, pcs = nfq.cells(ctx, AREA, "[Serializer]::start_elem")
+    for pc in nfq.feasible(pcs):
+        for g, v in pc["guards"].items():
+            # the test of the element's local name against the void list (read from the normal form, so that it is found
+            # wherever the test lives: in start_elem itself or in a helper written out at the call)
+            if v and ".local matches atom:" in g and "atom:br" in g:
+                void |= set(re.findall(r"atom:([\w-]+)", g.split(" matches ", 1)[1]))
     ctx.floor("R07.3", "void-elements", len(void), 18)
     return void
 
